@@ -79,7 +79,7 @@ func c12Key(t *rm.Type, kb []byte, mode string) (v *ev.Violation) {
 		} else if err == nil || body != nil {
 			return c12Vio("unregistered-key-accepted", t, kb, mode, fmt.Sprintf("factory returned (%T, %v) for an unregistered key", body, err))
 		}
-	case "decode":
+	case "decode", "decode-reused":
 		base := valenum.Distinct(t)
 		if tn, reg := tab.Entries[ks]; reg {
 			rm.SetDyn(base, ks, valenum.Distinct(t.Proto.Type(tn)))
@@ -102,13 +102,21 @@ func c12Key(t *rm.Type, kb []byte, mode string) (v *ev.Violation) {
 		}
 		want, wcons, werr := rm.DecodeRef(t, ref)
 		msg := bind.New(t)
+		if mode == "decode-reused" {
+			// the receiver already holds a body of another registered type (a frame object that is being reused)
+			other := tab.Order[0]
+			if other == ks {
+				other = tab.Order[len(tab.Order)-1]
+			}
+			msg = bind.MustReal(valenum.WithKey(t, other, "D"))
+		}
 		buf := bytes.NewBuffer(append([]byte{}, ref...))
 		derr := bind.Decode(msg, buf)
 		if werr != nil {
 			if derr == nil {
 				return c12Vio("unregistered-key-accepted", t, kb, mode, fmt.Sprintf("Decode succeeded on %s although the key is not registered (body %s)", hx(ref), bind.DynGoType(msg, f.Name)))
 			}
-			if bt := bind.DynGoType(msg, f.Name); bt != "" {
+			if bt := bind.DynGoType(msg, f.Name); bt != "" && mode == "decode" {
 				return c12Vio("body-guessed", t, kb, mode, fmt.Sprintf("Decode failed (%v) but left a body of type %s", derr, bt))
 			}
 			return nil
@@ -183,7 +191,7 @@ func keyImage(t *rm.Type, k string) []byte {
 }
 
 func runC12(r *ev.Run, thorough bool) {
-	r.Rule = "18 discriminator tables: (i) every pinned key through the factory function, through a full Decode of a reference message, and through Encode with a nil body where the encoder fills it in: exactly the pinned body type, reference bytes, round trip; registered text keys with pad variations on the wire; (ii) unregistered keys: sample root table ALL 65,536 values; ApplID tables ALL strings of length <=2 and " + map[bool]string{false: "all 3-byte strings over a 17-byte alphabet", true: "ALL 2^24 three-byte strings"}[thorough] + " through the factory, the 17-byte-alphabet strings through full Decode and nil-body Encode; 32-bit tables neighbours/powers of two/byte-swaps" + map[bool]string{false: "", true: " and ALL 2^32 values through the factory"}[thorough] + "; oracle: registered => pinned type both ways, unregistered => error, no panic, no body; distinct = (table,key,mode)"
+	r.Rule = "18 discriminator tables: (i) every pinned key through the factory function, through a full Decode of a reference message into a fresh receiver and into a reused receiver holding a body of another registered type, and through Encode with a nil body where the encoder fills it in: exactly the pinned body type, reference bytes, round trip; registered text keys with pad variations on the wire; (ii) unregistered keys: sample root table ALL 65,536 values; ApplID tables ALL strings of length <=2 and " + map[bool]string{false: "all 3-byte strings over a 17-byte alphabet", true: "ALL 2^24 three-byte strings"}[thorough] + " through the factory, the 17-byte-alphabet strings through full Decode and nil-body Encode; 32-bit tables neighbours/powers of two/byte-swaps" + map[bool]string{false: "", true: " and ALL 2^32 values through the factory"}[thorough] + "; oracle: registered => pinned type both ways, unregistered => error, no panic, no body; distinct = (table,key,mode)"
 	var dyn []*rm.Type
 	for _, t := range bind.Types {
 		if t.DynField() >= 0 {
@@ -206,7 +214,7 @@ func runC12(r *ev.Run, thorough bool) {
 		}
 		for _, k := range tab.Order {
 			kb := keyImage(t, k)
-			for _, m := range []string{"factory", "decode", "fill"} {
+			for _, m := range []string{"factory", "decode", "decode-reused", "fill"} {
 				run(kb, m)
 			}
 			if tab.KeyKind == "text" {
@@ -228,7 +236,7 @@ func runC12(r *ev.Run, thorough bool) {
 					kb[i], kb[j] = kb[j], kb[i]
 				}
 			}
-			for _, m := range []string{"factory", "decode", "fill"} {
+			for _, m := range []string{"factory", "decode", "decode-reused", "fill"} {
 				run(kb, m)
 			}
 		}
